@@ -1,0 +1,33 @@
+//go:build verif
+// +build verif
+
+package p2p
+
+import (
+	"context"
+	"net"
+)
+
+// Verification hooks for the framing property (build tag verif): thin exports of the two loops
+// that call readFrom / writeTo on a client's connection. No logic of their own beyond building
+// the receiver (readPipe / sendPipe use c.ctx, c.conn and c.errc only).
+
+func verifC15Client(conn net.Conn) *client {
+	c := &client{conn: conn, errc: make(chan error)}
+	c.ctx, c.cancel = context.WithCancel(context.Background())
+	return c
+}
+
+// VerifC15ReadPipe runs client.readPipe on conn: out is the pipe's output, errc what it reports,
+// cancel ends the client's context.
+func VerifC15ReadPipe(conn net.Conn) (out chan []byte, errc chan error, cancel func()) {
+	c := verifC15Client(conn)
+	return c.readPipe(), c.errc, c.cancel
+}
+
+// VerifC15SendPipe runs client.sendPipe on conn, fed from in.
+func VerifC15SendPipe(conn net.Conn, in chan []byte) (errc chan error, cancel func()) {
+	c := verifC15Client(conn)
+	c.sendPipe(in)
+	return c.errc, c.cancel
+}
